@@ -76,6 +76,8 @@ type Exec struct {
 	entryIndex      int
 	topFrame        *frame
 	curReach        string
+	pureLets        [][2]string
+	letDepth        int
 	qrec            map[string]*qRecord
 }
 
@@ -150,6 +152,13 @@ func (ex *Exec) nameMin(prefix, term, sort string, min int) string {
 				fmt.Fprintf(os.Stderr, "BIGTERM %s: %s\n ... %s\n", prefix, term[:1500], term[len(term)-300:])
 			}
 			panic(unsupported("specification term exceeds the VC size cap (4 MiB)"))
+		}
+		if ex.letDepth > 0 && len(term) >= 40 && strings.HasPrefix(term, "(") {
+			// inside a specification, sharing is expressed with let-bindings closed off by pureScope
+			ex.nfresh++
+			n := fmt.Sprintf("l!%d", ex.nfresh)
+			ex.pureLets = append(ex.pureLets, [2]string{n, term})
+			return n
 		}
 		return term
 	}
@@ -642,4 +651,18 @@ func sortStrings(s []string) {
 			s[j], s[j-1] = s[j-1], s[j]
 		}
 	}
+}
+
+// pureScope evaluates a specification term; sharing introduced while building it is closed off with let-bindings.
+func (ex *Exec) pureScope(f func() string) string {
+	mark := len(ex.pureLets)
+	ex.letDepth++
+	body := f()
+	ex.letDepth--
+	lets := ex.pureLets[mark:]
+	ex.pureLets = ex.pureLets[:mark]
+	for i := len(lets) - 1; i >= 0; i-- {
+		body = "(let ((" + lets[i][0] + " " + lets[i][1] + ")) " + body + ")"
+	}
+	return body
 }
